@@ -51,6 +51,8 @@ pub struct Config {
     pub opaque: Vec<String>,
     pub max_steps: usize,
     pub log: bool,
+    /// interpret as a release build: `debug_assert!` conditions are not evaluated
+    pub release: bool,
 }
 
 pub struct M<'tcx> {
